@@ -337,6 +337,42 @@ def boundary_case(cfg, k, variant):
 
 
 # ---------------------------------------------------------------------------
+# layer 4: the process dies inside a checkpoint write, then resumes
+# ---------------------------------------------------------------------------
+
+def layer4(tier, seed, root, workers, n_runs, per_run):
+    """Kill a real child process before a file operation inside a
+    checkpoint write (crash-point engine E2), let a fresh process resume and
+    finish; the final result must equal the uninterrupted run's."""
+    from checks import c06
+    from engines import e2_crash as e2
+    e2.ensure_shim()
+    infos = orchestrator.run_parallel(
+        c06.record_run, [(tier, seed, 1000 + i, root, None)
+                         for i in range(n_runs)],
+        workers=workers, hard_wall=HARD_WALL)
+    kills = []
+    rng = R.run_rng(PROP, tier, seed, 0, 'layer4')
+    for info in infos:
+        if info is None or info['status'] != 'ok':
+            continue
+        recs = e2.parse_log(info['log'])
+        ops, _ = e2.annotate(recs)
+        windows = {}
+        for o in ops:
+            if o['inside'] is not None:
+                windows.setdefault((o['n_completed'], o['inside']),
+                                   []).append(o['n'])
+        full = [w for w in sorted(windows) if w[1] == 'full']
+        upd = [w for w in sorted(windows) if w[1] != 'full']
+        rng.shuffle(upd)
+        chosen = full + upd[:max(0, per_run - len(full))]
+        for w in chosen[:per_run]:
+            kills.append((info, rng.choice(windows[w]), None, 'identical'))
+    res = orchestrator.run_parallel(c06.real_kill, kills, workers=workers,
+                                    hard_wall=HARD_WALL)
+    return infos, kills, res
+
 
 def main(argv=None):
     ap = argparse.ArgumentParser()
@@ -357,7 +393,26 @@ def main(argv=None):
     if args.replay:
         with open(args.replay) as f:
             payload = json.load(f)
-        r = replay_chain(payload['case'])
+        if payload['case'].get('engine') == 'e2':
+            from checks import c06
+            from engines import e2_crash as e2
+            e2.ensure_shim()
+            root = tempfile.mkdtemp(prefix='verif-c05-',
+                                    dir=env.scratch_root())
+            try:
+                c = payload['case']
+                info = c06.record_run((tier, seed, 0, root, c['cfg']))
+                if info['status'] != 'ok':
+                    report.say('HARNESS-ERROR: ' + str(info.get('error')))
+                    return env.EXIT_HARNESS
+                k = c06.real_kill((info, c['n'], c.get('torn'), 'identical'))
+            finally:
+                shutil.rmtree(root, ignore_errors=True)
+            r = dict(status=k['status'])
+            if k['status'] == 'violation':
+                r['violation'] = dict(cls=k['cls'], msg=k['msg'])
+        else:
+            r = replay_chain(payload['case'])
         report.say('replay of {}: {}'.format(args.replay, r.get('status')))
         if r.get('status') == 'violation':
             report.say('VIOLATION property={} replay={}'.format(
@@ -437,6 +492,29 @@ def main(argv=None):
         chains = orchestrator.run_parallel(
             run_chain, [(tier, seed, i) for i in range(n_chain)],
             workers=workers, hard_wall=HARD_WALL, budget_s=left)
+        # ---- layer 4 -----------------------------------------------------
+        l4_infos, l4_kills, l4_res = layer4(
+            tier, seed, root, workers,
+            dict(quick=3, thorough=16)[tier], dict(quick=10, thorough=24)[tier])
+        stats['file_op_kills'] = 0
+        stats['file_op_kill_outcomes'] = {}
+        for (info, n, torn, _), r in zip(l4_kills, l4_res):
+            if r is None:
+                continue
+            stats['file_op_kills'] += 1
+            st = r['status']
+            stats['file_op_kill_outcomes'][st] = stats[
+                'file_op_kill_outcomes'].get(st, 0) + 1
+            if st == 'harness':
+                report.say('HARNESS-ERROR: ' + r['error'])
+                return env.EXIT_HARNESS
+            if st == 'violation' and r['cls'] in ('resume_differs',
+                                                  'resume_failed'):
+                failing.append((dict(engine='e2', cfg=info['cfg'], n=n,
+                                     torn=torn),
+                                dict(prop=PROP, cls=r['cls'] + '_after_kill_'
+                                     'in_checkpoint_write', msg=r['msg'],
+                                     detail={}), info['i'], {}))
     except orchestrator.HarnessError as e:
         report.say('HARNESS-ERROR: {}'.format(e))
         shutil.rmtree(root, ignore_errors=True)
@@ -482,7 +560,7 @@ def main(argv=None):
             continue
         reported.add(key)
         small = case
-        if not args.no_minimise:
+        if not args.no_minimise and case.get('engine') != 'e2':
             try:
                 small = minimise_chain(case, v['cls'],
                                        60 if tier == 'quick' else 180,
@@ -494,7 +572,7 @@ def main(argv=None):
         verdict.add_violation(v, path, small)
 
     n_eval = (stats['boundaries_plain'] + stats['boundaries_kill'] +
-              sum(status.values()))
+              sum(status.values()) + stats.get('file_op_kills', 0))
     wall = time.time() - t0
     coverage = dict(
         evaluations=n_eval,
@@ -520,6 +598,10 @@ def main(argv=None):
         exhaustive=False,
         boundaries_resumed_plain=stats['boundaries_plain'],
         boundaries_resumed_after_kill=stats['boundaries_kill'],
+        kills_inside_checkpoint_write_then_resume=stats.get(
+            'file_op_kills', 0),
+        kills_inside_checkpoint_write_outcomes=stats.get(
+            'file_op_kill_outcomes', {}),
         configurations_with_every_boundary=stats['configs_exhaustive'],
         benign_state_differences=stats['benign_state_differences'],
         discarded_workloads=stats['discarded'] + status.get('discarded', 0),
